@@ -360,6 +360,10 @@ class PrinterModel:
                 out[key] = post(ev.call(fns[0], args))
             except NoEval as ex:
                 raise AnchorError(f"`{name}` left the analysable fragment for {key} ({ex})")
+        unc = ev.uncovered()
+        if unc:
+            # folded over every Core variant (x every side): a branch that none of them takes depends on something else than the variant
+            raise AnchorError(f"`{name}`: {len(unc)} branch(es) are taken by no Core variant, e.g. {unc[0]} - the table depends on more than the variant and the side")
         return out
 
     def _table1(self, name):
@@ -425,6 +429,7 @@ class PrinterModel:
         bare = ("bare", "child", "ind")
         if all(v == protect(k[0]) for k, v in table.items()):
             return "plain"
+        self.operand_uncovered = []
         dev = []
         for (side, pl, cl), v in table.items():
             want = bare if (side == "Side::Right" and pl is not None and pl == cl) else protect(side)
